@@ -303,8 +303,14 @@ func kfReproC13(rep *Report) {
 		if regErr["blob"] != nil {
 			return false, ""
 		}
-		if _, err := schema.BuildStruct("kfblob", []driver.Value{int64(1), []byte{1, 2, 3}}); err != nil {
-			return true, "type Blob []byte is registered; decoding []byte{1,2,3} fails: " + firstN(err.Error(), 120)
+		for _, src := range []driver.Value{[]byte{1, 2, 3}, string([]byte{1, 2, 3})} {
+			got, err := schema.BuildStruct("kfblob", []driver.Value{int64(1), src})
+			if err != nil {
+				return true, fmt.Sprintf("type Blob []byte is registered; decoding %T{1,2,3} fails: %s", src, firstN(err.Error(), 120))
+			}
+			if row, ok := got.(*kfBlobRow); !ok || string(row.Data) != string([]byte{1, 2, 3}) || row.Id != 1 {
+				return true, fmt.Sprintf("type Blob []byte: %T{1,2,3} decodes to %#v", src, got)
+			}
 		}
 		return false, ""
 	})
